@@ -89,6 +89,12 @@ def build_traces(path, tier, seed):
             x = x * sc
             tol = tol * sc
         arg = x if tid % 4 else x.tolist()
+        if rng.integers(8) == 0:
+            # counts in a narrow integer dtype whose products leave the dtype (int8 up to 120, int16 up to 30000, int32 up to 2e9)
+            dt_, top = [(np.int8, 120), (np.int16, 30000), (np.int32, 2.0e9)][int(rng.integers(3))]
+            arg = np.round(x / (np.max(np.abs(x)) + 1e-300) * top).astype(dt_)
+            x = np.asarray(arg, dtype=float)
+            tol = float(rng.choice([0.3, 1.0, 2.0])) * top / 4.0
         import eqsig
         way = tid % 3      # 0: explicit keywords, 1: defaults (keep_adj_zeros=False, tol=0), 2: signal-level wrappers
         if way == 1:
